@@ -13,3 +13,87 @@ import (
 func VerifLcs(a, b []codec.Value) []*ResourceEvent {
 	return lcs(a, b)
 }
+
+// VerifRS drives one real ResourceSubscription (the cache side of one resource) directly,
+// without workers: the harness feeds it events and reset answers and observes what it hands
+// to its subscribers and the state it keeps.
+type VerifRS struct {
+	c    *Cache
+	e    *EventSubscription
+	rs   *ResourceSubscription
+	Sent []*ResourceEvent // events handed to the stub subscriber, in order
+	Errs int              // number of error log lines
+}
+
+type verifLogger struct{ v *VerifRS }
+
+func (l verifLogger) Log(s string)   {}
+func (l verifLogger) Error(s string) { l.v.Errs++ }
+func (l verifLogger) Debug(s string) {}
+func (l verifLogger) Trace(s string) {}
+func (l verifLogger) IsDebug() bool  { return false }
+func (l verifLogger) IsTrace() bool  { return false }
+
+type verifSub struct{ v *VerifRS }
+
+func (s verifSub) CID() string                                { return "verif" }
+func (s verifSub) Loaded(rs *ResourceSubscription, err error) {}
+func (s verifSub) Event(ev *ResourceEvent)                    { cp := *ev; s.v.Sent = append(s.v.Sent, &cp) }
+func (s verifSub) ResourceName() string                       { return s.v.e.ResourceName }
+func (s verifSub) ResourceQuery() string                      { return s.v.rs.query }
+func (s verifSub) Reaccess(t *Throttle)                       {}
+
+// NewVerifRS creates a loaded model (model != nil) or collection resource with one stub subscriber.
+func NewVerifRS(name, query string, model map[string]codec.Value, collection []codec.Value) *VerifRS {
+	v := &VerifRS{}
+	v.c = NewCache(nil, 0, 0, 1<<40, verifLogger{v}, nil)
+	v.c.eventSubs = make(map[string]*EventSubscription)
+	v.c.unsubQueue = timerqueueNew(v.c)
+	v.e = &EventSubscription{ResourceName: name, cache: v.c, count: 1}
+	v.rs = newResourceSubscription(v.e, query)
+	if query == "" {
+		v.e.base = v.rs
+	} else {
+		v.e.queries = map[string]*ResourceSubscription{query: v.rs}
+	}
+	if model != nil {
+		v.rs.model = &Model{Values: model}
+		v.rs.state = stateModel
+	} else {
+		v.rs.collection = &Collection{Values: collection}
+		v.rs.state = stateCollection
+	}
+	v.rs.subs[verifSub{v}] = struct{}{}
+	return v
+}
+
+// Event runs handleEvent as a cache worker would (e.mu held).
+func (v *VerifRS) Event(event string, payload []byte) {
+	v.e.mu.Lock()
+	defer v.e.mu.Unlock()
+	v.rs.handleEvent(&ResourceEvent{Event: event, Payload: payload})
+}
+
+// SetResetting sets the resetting flag (as handleResetResource does before its request).
+func (v *VerifRS) SetResetting(b bool) { v.rs.resetting = b }
+
+// ResetResponse runs the body of the reset answer task.
+func (v *VerifRS) ResetResponse(payload []byte, err error) {
+	v.e.mu.Lock()
+	defer v.e.mu.Unlock()
+	v.rs.resetting = false
+	v.rs.processResetGetResponse(payload, err)
+}
+
+// State returns the cached values, the internal version, the number of subscribers and the use count.
+func (v *VerifRS) State() (map[string]codec.Value, []codec.Value, uint, int, int64) {
+	var m map[string]codec.Value
+	var c []codec.Value
+	if v.rs.model != nil {
+		m = v.rs.model.Values
+	}
+	if v.rs.collection != nil {
+		c = v.rs.collection.Values
+	}
+	return m, c, v.rs.version, len(v.rs.subs), v.e.count
+}
